@@ -27,6 +27,7 @@ const (
 	tByte  ty = "byte"
 	tBool  ty = "bool"
 	tBytes ty = "bytes" // string, []byte, net.IP
+	tZ     ty = "z"     // time.Time / time.Duration (and other signed quantities) as Lean Int
 	tConst ty = "const" // untyped numeric constant
 	tNil   ty = "nil"
 	tErr   ty = "error"
@@ -90,6 +91,8 @@ func leanType(t ty) string {
 		return "Bool"
 	case tBytes:
 		return "List UInt8"
+	case tZ:
+		return "Int"
 	}
 	if strings.HasPrefix(string(t), "struct:") {
 		return strings.TrimPrefix(string(t), "struct:")
@@ -226,6 +229,23 @@ func (t *tr) expr(e ast.Expr) (string, ty) {
 					a, _ := t.expr(x.Args[0])
 					b, _ := t.expr(x.Args[1])
 					return fmt.Sprintf("(%s %s %s)", f.lean, a, b), f.ret
+				}
+			}
+			// time.Time methods on instants modelled as integers: Before/After/Sub/Equal
+			if len(x.Args) == 1 && (sel.Sel.Name == "Before" || sel.Sel.Name == "After" || sel.Sel.Name == "Sub" || sel.Sel.Name == "Equal") {
+				a, ta := t.expr(sel.X)
+				b, tb := t.expr(x.Args[0])
+				if ta == tZ && tb == tZ {
+					switch sel.Sel.Name {
+					case "Before":
+						return fmt.Sprintf("(decide (%s < %s))", a, b), tBool
+					case "After":
+						return fmt.Sprintf("(decide (%s > %s))", a, b), tBool
+					case "Equal":
+						return fmt.Sprintf("(%s == %s)", a, b), tBool
+					case "Sub":
+						return fmt.Sprintf("(%s - %s)", a, b), tZ
+					}
 				}
 			}
 		}
@@ -479,13 +499,24 @@ func emitConds(b *strings.Builder, specs []condSpec) {
 			}
 			var conds []ast.Expr
 			ast.Inspect(fd.Body, func(n ast.Node) bool {
-				if is, ok := n.(*ast.IfStmt); ok && strings.Contains(exprStr(p.fset, is.Cond), cs.contains) {
-					conds = append(conds, is.Cond)
+				switch st := n.(type) {
+				case *ast.IfStmt:
+					if strings.Contains(exprStr(p.fset, st.Cond), cs.contains) {
+						conds = append(conds, st.Cond)
+					}
+				case *ast.ForStmt:
+					if st.Cond != nil && strings.Contains(exprStr(p.fset, st.Cond), cs.contains) {
+						conds = append(conds, st.Cond)
+					}
+				case *ast.ReturnStmt:
+					if len(st.Results) == 1 && strings.Contains(exprStr(p.fset, st.Results[0]), cs.contains) {
+						conds = append(conds, st.Results[0])
+					}
 				}
 				return true
 			})
 			if len(conds) != 1 {
-				bad("expected exactly one if-condition containing %q, found %d", cs.contains, len(conds))
+				bad("expected exactly one if/for condition or returned expression containing %q, found %d", cs.contains, len(conds))
 			}
 			t := &tr{p: p, env: map[string]ty{}, structs: map[string]bool{}, abs: map[string]absParam{}}
 			byName := map[string]absParam{}
